@@ -821,7 +821,7 @@ func (c *Ctx) throughCell(x *X, at ssa.Instruction, env map[ssa.Value]*X) *X {
 		if base == nil {
 			return x
 		}
-		if base.Op == "complit" {
+		if _, isAl := base.V.(*ssa.Alloc); base.Op == "complit" && base.Cell == nil && !isAl {
 			found := false
 			for _, fi := range base.Args {
 				if fi.Name == y.Name && len(fi.Args) == 1 {
@@ -860,6 +860,19 @@ func (c *Ctx) throughCell(x *X, at ssa.Instruction, env map[ssa.Value]*X) *X {
 			}
 		}
 		switch {
+		case len(stores) >= 1 && at != nil && at.Parent() == stores[0].Parent() && !(len(stores) == 1 && Precedes(stores[0], at)):
+			// several stores: those that reach at (merged as the expression builder merges them)
+			fidx := -1
+			for k := 0; k < st.NumFields(); k++ {
+				if canonField(st.Field(k)) == y.Name {
+					fidx = k
+				}
+			}
+			m := c.xb.mergedFieldStores(al, fidx, stores, at, func(v ssa.Value) *X { return c.E(v) })
+			if m == nil || fidx < 0 {
+				return x
+			}
+			return m
 		case len(stores) == 1:
 			if at != nil && at.Parent() == stores[0].Parent() && !Precedes(stores[0], at) {
 				return x
